@@ -175,4 +175,120 @@ theorem Final.endIter {k : Kind} {c : Cfg} {frames : List Frame} {s : XState} (s
   have := Final.poll sched (show Final k c frames (tick sched s) from h)
   split <;> exact this
 
+
+/-! ### list facts -/
+
+theorem prefix_extend {α : Type} (frames pos : List α) (st vis : Nat) (h : pos <+: frames.drop st) :
+    pos ++ (frames.take vis).drop (st + pos.length) <+: frames.drop st := by
+  have hp : pos = (frames.drop st).take pos.length := List.prefix_iff_eq_take.mp h
+  have h2 : (frames.take vis).drop (st + pos.length)
+      = ((frames.drop st).drop pos.length).take (vis - (st + pos.length)) := by
+    rw [List.drop_take, List.drop_drop]
+  rw [h2]
+  conv => lhs; lhs; rw [hp]
+  rw [← List.take_add]
+  exact List.take_prefix _ _
+
+theorem cons_prefix_drop {α : Type} (frames rest : List α) (f : α) (st : Nat) (h : f :: rest <+: frames.drop st) :
+    frames[st]? = some f ∧ rest <+: frames.drop (st + 1) := by
+  obtain ⟨t, ht⟩ := h
+  have h0 : (frames.drop st)[0]? = some f := by rw [← ht]; simp
+  have h1 : frames[st]? = some f := by simpa using h0
+  refine ⟨h1, ?_⟩
+  have : frames.drop (st + 1) = (frames.drop st).drop 1 := by rw [List.drop_drop]
+  rw [this, ← ht]
+  simp
+
+theorem mem_drop_take {α : Type} (frames : List α) (a b : Nat) (x : α) (h : x ∈ (frames.take a).drop b) :
+    x ∈ frames :=
+  List.mem_of_mem_take (List.mem_of_mem_drop h)
+
+/-! ### one read -/
+
+theorem Inv.readNew {k : Kind} {c : Cfg} {frames : List Frame} {s s' : XState}
+    (h : Inv k c frames s) (hr : readNew k frames s = some s') :
+    Inv k c frames s' ∧ s'.multi = s.multi ∧ s'.it = s.it ∧ s'.dead = s.dead := by
+  obtain ⟨h1, h2, h3, h4, h5⟩ := h
+  cases k with
+  | lammps v =>
+    simp only [EngineLoops.readNew] at hr
+    split at hr
+    · simp only [Option.some.injEq] at hr
+      subst hr
+      refine ⟨⟨h1, h2, ?_, ?_, ?_⟩, rfl, rfl, rfl⟩
+      · simp only [h4]; exact prefix_extend _ _ _ _ h3
+      · simp only [List.length_append]; omega
+      · obtain ⟨k1, k2, k3, k4⟩ := h5
+        refine ⟨by simp [k1], fun hv => by simp [k2 hv], fun hm => by simp [k3 hm], ?_⟩
+        intro b hb
+        simp only [List.mem_append, List.mem_map] at hb
+        rcases hb with hb | ⟨f, hf, rfl⟩
+        · exact k4 b hb
+        · exact ⟨f, mem_drop_take _ _ _ _ hf, rfl⟩
+    · simp at hr
+  | cp2k b0 =>
+    simp only [EngineLoops.readNew] at hr
+    split at hr
+    · simp only [Option.some.injEq] at hr
+      subst hr
+      obtain ⟨k1, k2⟩ := h5
+      refine ⟨⟨h1, h2, ?_, ?_, ?_, ?_⟩, rfl, rfl, rfl⟩
+      · simp only [h4]; exact prefix_extend _ _ _ _ h3
+      · simp only [List.length_append]; omega
+      · simp only [k2]; exact prefix_extend _ _ _ _ k1
+      · simp only [List.length_append]; omega
+    · simp only [Option.some.injEq] at hr
+      subst hr
+      exact ⟨⟨h1, h2, h3, h4, h5⟩, rfl, rfl, rfl⟩
+
+
+/-! ### one `pop` of the box list -/
+
+theorem popBox_spec (v : Variant) (frames : List Frame) (m : Bool) (f : Frame) (rest : List Frame)
+    (boxes : List Nat)
+    (k1 : boxes.length = (f :: rest).length)
+    (k2 : v = .repaired → boxes = (f :: rest).map (·.bid))
+    (k3 : m = false → boxes = (f :: rest).map (·.bid))
+    (k4 : ∀ b, b ∈ boxes → ∃ f', f' ∈ frames ∧ b = f'.bid)
+    (hB : m = false → (f :: rest).length ≤ 1) :
+    ∃ b boxes', popBox v boxes = some (b, boxes') ∧ BoxP (.lammps v) frames m f b ∧
+      boxes'.length = rest.length ∧ (v = .repaired → boxes' = rest.map (·.bid)) ∧
+      (m = false → boxes' = rest.map (·.bid)) ∧ (∀ b, b ∈ boxes' → ∃ f', f' ∈ frames ∧ b = f'.bid) := by
+  cases v with
+  | asIs =>
+    have hne : boxes ≠ [] := by intro e; subst e; simp at k1
+    refine ⟨boxes.getLast hne, boxes.dropLast, ?_, ⟨(fun h => Variant.noConfusion h), ?_, ?_⟩, ?_,
+      (fun h => Variant.noConfusion h), ?_, ?_⟩
+    · simp [popBox, List.getLast?_eq_some_getLast hne]
+    · intro hm
+      have hr : rest = [] := by
+        have := hB hm
+        simp at this
+        exact this
+      subst hr
+      have := k3 hm
+      subst this
+      simp
+    · exact k4 _ (List.getLast_mem hne)
+    · simp [k1]
+    · intro hm
+      have hr : rest = [] := by
+        have := hB hm
+        simp at this
+        exact this
+      subst hr
+      have := k3 hm
+      subst this
+      simp
+    · intro b hb
+      exact k4 b (List.dropLast_subset _ hb)
+  | repaired =>
+    have hb : boxes = f.bid :: rest.map (·.bid) := by simpa using k2 rfl
+    subst hb
+    refine ⟨f.bid, rest.map (·.bid), by simp [popBox], ⟨fun _ => rfl, fun _ => rfl, ?_⟩, by simp, fun _ => rfl,
+      fun _ => rfl, ?_⟩
+    · exact k4 f.bid (by simp)
+    · intro b hb
+      exact k4 b (by simp at hb ⊢; right; exact hb)
+
 end Infretis.EngineLoops
